@@ -507,20 +507,38 @@ pub fn run(tier: Tier) -> CheckResult {
     if not_fired > 0 {
         res.machinery_errors.push(format!("{} planned faults did not hit the planned syscall (strace counting diverged)", not_fired));
     }
-    // short writes: every scenario under a ladder of file-size limits
-    let mut lcs: Vec<LimitCase> = vec![];
-    for sc in &scenarios {
-        for limit in [0u64, 1, 100, 400, 512, 1000, 1024, 2000, 3000, 4096, 6000, 8192, 16384, 1 << 20] {
-            lcs.push(LimitCase { scenario: sc.clone(), limit, recovery: "direct".into(), via_init: false });
-            if sc.pre_edit.as_deref().is_some_and(|e| e != "@none") {
-                lcs.push(LimitCase { scenario: sc.clone(), limit, recovery: "revert".into(), via_init: false });
+    // short writes: every scenario under file-size limits derived from the sizes of the files it
+    // writes (before and after the scenario's edit): 0, 1, and for every size s: s/2, s-1, s, s+1
+    let per_scenario: Vec<Vec<LimitCase>> = scenarios
+        .par_iter()
+        .map(|sc| {
+            let sb = run::Sandbox::new();
+            let Some((base, current, cfg)) = prepare(sc, &sb.root) else { return vec![] };
+            let mut sizes: BTreeSet<u64> = BTreeSet::new();
+            for p in [&base, &current] {
+                if let Some(r) = sbx::reference_output(p, &cfg) {
+                    sizes.extend(r.values().map(|t| t.len() as u64));
+                }
             }
-            // the same fault when the generation is started through `init`
-            if sc.seam == "cli" && sc.pre_edit.is_none() {
-                lcs.push(LimitCase { scenario: sc.clone(), limit, recovery: "direct".into(), via_init: true });
+            let mut limits: BTreeSet<u64> = [0u64, 1, 1 << 20].into_iter().collect();
+            for s in sizes {
+                limits.extend([s / 2, s.saturating_sub(1), s, s + 1]);
             }
-        }
-    }
+            let mut v = vec![];
+            for limit in limits {
+                v.push(LimitCase { scenario: sc.clone(), limit, recovery: "direct".into(), via_init: false });
+                if sc.pre_edit.as_deref().is_some_and(|e| e != "@none") {
+                    v.push(LimitCase { scenario: sc.clone(), limit, recovery: "revert".into(), via_init: false });
+                }
+                // the same fault when the generation is started through `init`
+                if sc.seam == "cli" && sc.pre_edit.is_none() {
+                    v.push(LimitCase { scenario: sc.clone(), limit, recovery: "direct".into(), via_init: true });
+                }
+            }
+            v
+        })
+        .collect();
+    let lcs: Vec<LimitCase> = per_scenario.into_iter().flatten().collect();
     let lres: Vec<Option<(Vec<Violation>, String)>> = lcs.par_iter().map(|c| if deadline.passed() { None } else { Some(eval_limit(c)) }).collect();
     for r in lres {
         match r {
@@ -560,7 +578,7 @@ pub fn run(tier: Tier) -> CheckResult {
     res.coverage.set("not_fired", json!(outcomes.iter().filter(|o| o.starts_with("not-fired")).collect::<Vec<_>>()));
     res.coverage.set("exhaustive", exhaustive);
     res.coverage.set("samples", json!(cases.iter().step_by((cases.len() / 4).max(1)).take(4).collect::<Vec<_>>()));
-    res.coverage.set("rule", "for each scenario (base project x mode x seam x visualisation x {first run, run after an output-changing edit, FORCED run over a valid cache with and without a preceding edit}) a recording run under strace lists every openat/write the main thread issues on files of the output directory; for EVERY such call and every fault kind (errno injection, SIGKILL on entry - a SIGKILL at the write leaves the file truncated by the preceding open) one faulty run of the real binary/build path, followed by the recovery suffix (plain non-forced run; or revert the edit then run); oracles: non-zero exit when a binding/graph write failed, recovery run succeeds and the output equals a fresh forced generation. Short writes: every scenario again under each of 14 file-size limits (RLIMIT_FSIZE with SIGXFSZ ignored: the kernel cuts the write short and the next one fails with EFBIG), through generate, the build path and - for first runs - `init`; a limit below the largest generated file must give a non-zero exit, and the same recovery oracle applies. A faulty run is non-trivial when strace confirms the fault hit the planned call (size-limit runs: always).");
+    res.coverage.set("rule", "for each scenario (base project x mode x seam x visualisation x {first run, run after an output-changing edit, FORCED run over a valid cache with and without a preceding edit}) a recording run under strace lists every openat/write the main thread issues on files of the output directory; for EVERY such call and every fault kind (errno injection, SIGKILL on entry - a SIGKILL at the write leaves the file truncated by the preceding open) one faulty run of the real binary/build path, followed by the recovery suffix (plain non-forced run; or revert the edit then run); oracles: non-zero exit when a binding/graph write failed, recovery run succeeds and the output equals a fresh forced generation. Short writes: every scenario again under file-size limits derived from the sizes s of the files it writes before and after its edit (0, 1, s/2, s-1, s, s+1) (RLIMIT_FSIZE with SIGXFSZ ignored: the kernel cuts the write short and the next one fails with EFBIG), through generate, the build path and - for first runs - `init`; a limit below the largest generated file must give a non-zero exit, and the same recovery oracle applies. A faulty run is non-trivial when strace confirms the fault hit the planned call (size-limit runs: always).");
     res.assumptions = vec![
         "errno / SIGKILL injection assumes one write(2) per file; short writes are covered separately through RLIMIT_FSIZE".into(),
         "strace per-thread syscall counting is stable between the recording run and the faulty run (verified per run through the INJECTED marker)".into(),
